@@ -300,9 +300,11 @@ class Model:
 # ------------------------------------------------------------------ results
 def load_known():
     p = os.path.join(VERIF, "known_findings.json")
-    if not os.path.exists(p):
-        return []
-    return json.load(open(p)).get("findings", [])
+    out = json.load(open(p)).get("findings", []) if os.path.exists(p) else []
+    extra = os.environ.get("VERIF_EXTRA_FINDINGS")   # development aid for builders; never set by registered commands
+    if extra and os.path.exists(extra):
+        out = out + json.load(open(extra))
+    return out
 
 
 class Report:
